@@ -7,6 +7,7 @@ import shutil
 import tempfile
 
 import numpy as np
+import pandas as _pd
 from hypothesis import strategies as st
 from scipy.stats import binom
 
@@ -31,6 +32,9 @@ ASSUMPTIONS = [
     'numpy.random is seeded from the spec right before sample_and_merge; nothing is assumed about which '
     'alternatives are drawn, only the protocol (and, in sub-check uniformity, binomial inclusion '
     'frequencies with a 1e-12 two-sided tail)',
+    'the row labels (pandas index) of the tables of individuals and of alternatives are arbitrary: default, '
+    'permuted, with gaps, offset, duplicated, strings, floats, mixed (the unchanged library accepts them all); '
+    'the oracle pairs the p-th generated row with the p-th individual BY POSITION and never reads labels',
     'column names are plain identifiers that do not end in _<digits> and individuals/alternatives do not '
     'share names (the flattening scheme <column>_<position> cannot tell them apart otherwise)',
     'identifiers of alternatives are integers below 2**24 (set membership in the engine is float32)',
@@ -92,6 +96,82 @@ def _attribute_columns(draw, names, n_rows, n_cols):
             cols.append([name, draw(st.sampled_from(['int', 'float'])), vals])
         leaves[sort].append(name)
     return cols, leaves
+
+
+# --- row labels (pandas index) of the two tables ------------------------------------------------
+# The library is handed data frames; nothing in its documentation asks for the default RangeIndex, and a
+# table that has been sorted, filtered, shuffled, concatenated or indexed by a survey identifier does not
+# have it. The labels are part of the spec (None = default index); every clause of the oracle is
+# stated by POSITION (p-th generated row <-> p-th individual), never by label.
+
+INDEX_KINDS = ['default', 'default', 'default', 'permuted', 'permuted', 'permuted', 'gaps', 'gaps',
+               'gaps_shuffled', 'offset', 'offset', 'duplicated', 'duplicated', 'constant',
+               'strings', 'floats', 'mixed']
+LABEL_STRINGS = ['a', 'b', 'c', 'd', 'e', 'f', 'g', 'h', 'r1', 'r2', 'r10', 'id 7', '0', '1', '2', '3',
+                 'A', 'B', 'x_0', 'x_1', 'obs', 'choice', 'p-4', 'Z']
+
+
+def _index_labels(draw, n):
+    """None (default index) or a list of n JSON-serialisable row labels."""
+    kind = draw(st.sampled_from(INDEX_KINDS))
+    if kind == 'default':
+        return None
+    if kind == 'permuted':  # a sorted / shuffled table: every label 0..n-1 once, elsewhere
+        return list(draw(st.permutations(list(range(n)))))
+    if kind in ('gaps', 'gaps_shuffled'):  # a filtered table: some labels of a larger table
+        labels = draw(st.lists(st.integers(0, 3 * n + 2), min_size=n, max_size=n, unique=True))
+        return sorted(labels) if kind == 'gaps' else labels
+    if kind == 'offset':  # 1-based, or a slice of a larger table
+        first = draw(st.sampled_from([1, 1, 2, n - 1, n, 10, 1000, -1, -n]))
+        return list(range(first, first + n))
+    if kind == 'duplicated':  # concatenated tables: labels repeat (and collide with positions)
+        return draw(st.lists(st.integers(0, max(0, n - 1)), min_size=n, max_size=n))
+    if kind == 'constant':
+        return [draw(st.integers(0, n))] * n
+    if kind == 'strings':
+        return draw(st.lists(st.sampled_from(LABEL_STRINGS), min_size=n, max_size=n, unique=draw(st.booleans())))
+    if kind == 'floats':
+        return draw(st.lists(_dy(-2, 20, 2), min_size=n, max_size=n, unique=draw(st.booleans())))
+    return draw(st.lists(st.one_of(st.integers(-2, n + 2), st.sampled_from(LABEL_STRINGS), _dy(0, 8, 2)),
+                         min_size=n, max_size=n))
+
+
+def _index_class(labels):
+    """Class of a list of row labels, derived from the spec (so that it survives shrinking)."""
+    if labels is None:
+        return 'default'
+    n = len(labels)
+    if all(isinstance(x, int) and not isinstance(x, bool) for x in labels):
+        if list(labels) == list(range(n)):
+            return 'range_0..n-1'
+        if len(set(labels)) < n:
+            return 'duplicated_int'
+        if sorted(labels) == list(range(n)):
+            return 'permuted'
+        lo = min(labels)
+        if list(labels) == list(range(lo, lo + n)):
+            return 'offset'
+        return 'gaps' if sorted(labels) == list(labels) else 'gaps_unsorted'
+    if all(isinstance(x, str) for x in labels):
+        return 'strings' if len(set(labels)) == n else 'duplicated_strings'
+    if all(isinstance(x, float) for x in labels):
+        return 'floats' if len(set(labels)) == n else 'duplicated_floats'
+    return 'mixed'
+
+
+def _positions_differ_from_labels(labels):
+    """True if looking a row up by its position as a label gives another row, several rows, or none."""
+    if labels is None:
+        return False
+    return any(sum(1 for x in labels if x == p) != 1 or labels[p] != p for p in range(len(labels)))
+
+
+def _frame(table, labels):
+    frame = build.build_dataframe(table)
+    if labels is not None:
+        frame.index = _pd.Index(list(labels), dtype=object) if any(isinstance(x, str) for x in labels) \
+            else _pd.Index(list(labels))
+    return frame
 
 
 def _split(draw, members, max_parts):
@@ -222,6 +302,7 @@ def _config(draw, tier, full=False, mev='optional', n_combined=(0, 2), min_alts=
     cfg = dict(
         alts=dict(columns=alt_cols), id_column=id_column,
         inds=dict(columns=ind_cols), choice_column=choice_column,
+        alt_index=_index_labels(draw, n_alt), ind_index=_index_labels(draw, n_ind),
         strata=strata, sizes=sizes, full_set=draw(st.booleans()),
         mev=None, combined=[], utility=None, np_seed=draw(st.integers(0, 2**31 - 1)),
     )
@@ -360,9 +441,9 @@ def _make_context(spec, file_name):
     return _soa.SamplingContext(
         the_partition=_make_partition(spec['strata'], spec['full_set']),
         sample_sizes=list(spec['sizes']),
-        individuals=build.build_dataframe(spec['inds']),
+        individuals=_frame(spec['inds'], spec.get('ind_index')),
         choice_column=spec['choice_column'],
-        alternatives=build.build_dataframe(spec['alts']),
+        alternatives=_frame(spec['alts'], spec.get('alt_index')),
         id_column=spec['id_column'],
         biogeme_file_name=file_name,
         utility_function=b.build(spec['utility']),
@@ -420,7 +501,7 @@ def _observe(spec):
             return res
         frame = database.data
         res['columns'] = [str(c) for c in frame.columns]
-        res['index'] = [int(i) for i in frame.index]
+        res['index'] = [repr(i) for i in frame.index]
         res['data'] = [[float(x) for x in np.asarray(frame.iloc[:, i], dtype=float)]
                        for i in range(frame.shape[1])]
         res['file_written'] = os.path.exists(os.path.join(tmp, 'merged.csv'))
@@ -658,10 +739,27 @@ def _check_data(out, spec, ref, obs):
     for r in range(n_ind):
         ind_row = ref.ind_rows[r]
         usable = True
+        # by POSITION: the r-th generated row describes the r-th row of the table of individuals,
+        # whatever the labels of that table are
         for c in ref.ind_cols:
             if data[c][r] != ind_row[c]:
+                got_row = {k: data[k][r] for k in ref.ind_cols}
+                whose = [q for q, other in enumerate(ref.ind_rows) if q != r and other == got_row]
+                labels = spec.get('ind_index')
+                if labels is not None:  # several identical individuals: name the one whose LABEL is r first
+                    whose.sort(key=lambda q: labels[q] != r)
+                why = ''
+                if whose:
+                    why = f' (the row carries the attributes of the individual at position {whose[0]}'
+                    if labels is not None:
+                        why += f', labelled {labels[whose[0]]!r}; this one is labelled {labels[r]!r}'
+                    why += ')'
+                elif labels is not None:
+                    why = f' (row labels of the table of individuals: {labels[:12]})'
                 out.fail('data:individual_attribute',
-                         f'row {r}: column {c!r} is {data[c][r]!r}, the individual has {ind_row[c]!r}')
+                         f'row {r}: column {c!r} is {data[c][r]!r}, the individual at position {r} has '
+                         f'{ind_row[c]!r}{why}')
+                break
         chosen = int(ind_row[spec['choice_column']])
         raw = [data[f'{ref.id_column}_{j}'][r] for j in range(J)]
         if any((not math.isfinite(x)) or x != int(x) or int(x) not in ref.by_id for x in raw):
@@ -824,6 +922,18 @@ def _common_classes(out, spec, ref):
         out.classes.append('chosen_stratum_k=1')
     if ref.mev and set(ref.mev_stratum_of) != set(ref.ids):
         out.classes.append('second_partition_subset')
+    _index_classes(out, spec)
+
+
+def _index_classes(out, spec):
+    out.classes.append('individuals_index=' + _index_class(spec.get('ind_index')))
+    out.classes.append('alternatives_index=' + _index_class(spec.get('alt_index')))
+    if _positions_differ_from_labels(spec.get('ind_index')):
+        rows = build.table_rows(spec['inds'])
+        out.classes.append('individuals_label!=position' + ('' if len({tuple(sorted(r.items())) for r in rows}) > 1
+                                                              else '(identical_rows)'))
+    if _positions_differ_from_labels(spec.get('alt_index')):
+        out.classes.append('alternatives_label!=position')
 
 
 def _different_ratios(spec):
@@ -1146,6 +1256,7 @@ def judge_uniformity(spec) -> Outcome:
             test(a, mev_counts[a], p2, 'second-sample alternative', 'uniformity:second_sample')
     out.nontrivial = interior
     out.classes.append('some_stratum_partially_sampled' if interior else 'all_certain')
+    _index_classes(out, spec)
     return out
 
 
@@ -1303,9 +1414,9 @@ def _make_kwargs(spec):
     return dict(
         the_partition=_make_partition(spec['strata'], spec['full_set']),
         sample_sizes=list(spec['sizes']),
-        individuals=build.build_dataframe(spec['inds']),
+        individuals=_frame(spec['inds'], spec.get('ind_index')),
         choice_column=spec['choice_column'],
-        alternatives=build.build_dataframe(spec['alts']),
+        alternatives=_frame(spec['alts'], spec.get('alt_index')),
         id_column=spec['id_column'],
         biogeme_file_name='unused.csv',
         utility_function=b.build(spec['utility']),
@@ -1333,6 +1444,10 @@ def render(spec):
     ch = [c for c in spec['inds']['columns'] if c[0] == spec['choice_column']][0][2]
     txt = (f'{len(ids)} alternatives {ids}, strata {spec["strata"]} sizes {spec["sizes"]}, '
            f'choices {ch}')
+    if spec.get('ind_index') is not None:
+        txt += f', row labels of the individuals {spec["ind_index"]}'
+    if spec.get('alt_index') is not None:
+        txt += f', row labels of the alternatives {spec["alt_index"]}'
     if spec.get('mev'):
         txt += f', second partition {spec["mev"]["strata"]} sizes {spec["mev"]["sizes"]}'
     if spec.get('combined'):
@@ -1350,8 +1465,11 @@ def render(spec):
 
 SUBCHECKS = [
     SubCheck('protocol', strat_protocol, judge_protocol, render, dict(quick=320, thorough=12000),
-             'random tables/partitions/sizes/choices/combined variables/optional second sample: every merged row '
-             'keeps the protocol, combined variables recomputed, sampled logit likelihood recomputed; '
+             'random tables/partitions/sizes/choices/combined variables/optional second sample, tables of '
+             'individuals and alternatives with arbitrary row labels (default, permuted, gaps, offset, duplicated, '
+             'non-integer): every merged row, BY POSITION, carries the attributes and choice of the individual at '
+             'that position, keeps the protocol, combined variables recomputed from that individual and the sampled '
+             'alternative, sampled logit likelihood recomputed; '
              'non-trivial: >= 2 strata with different k/n and a chosen alternative that is not the first of its stratum',
              max_skip_fraction=0.25),
     SubCheck('full_logit', strat_full, judge_protocol, render, dict(quick=160, thorough=6000),
